@@ -207,6 +207,24 @@ func facetRef(args []string) error {
 		g2.Spec = inlinedSpec(g.Spec, false)
 		pairs = append(pairs, pair{kind: "json", ref: g, inl: g2, env: env})
 	}
+	if *shard%4 == 3 {
+		// fixed pair: two schema components whose names differ only in spelling convention (ZipCode an
+		// integer, zip_code a string); a parameter refers to the one that sorts later. The reference
+		// must mean that component, as its inline copy does
+		doc := map[string]any{"openapi": "3.0.3", "info": map[string]any{"title": "t", "version": "1"},
+			"paths": map[string]any{"/search": map[string]any{"get": map[string]any{
+				"parameters": []any{map[string]any{"in": "query", "name": "zipref", "schema": map[string]any{"$ref": "#/components/schemas/zip_code"}},
+					map[string]any{"in": "header", "name": "X-Zip", "schema": map[string]any{"$ref": "#/components/schemas/ZipCode"}}},
+				"responses": map[string]any{"200": map[string]any{"description": "ok"}}}}},
+			"components": map[string]any{"schemas": map[string]any{"ZipCode": map[string]any{"type": "integer"}, "zip_code": map[string]any{"type": "string"}}}}
+		bs, _ := json.Marshal(doc)
+		rs := routeSpec{Gen: GenSpec{Name: fmt.Sprintf("x%02d_zr", *shard), Spec: bs, Ext: "json", DoNotEdit: true}, Templates: []string{"/search"},
+			Params: map[string][]paramDef{"/search": {{Loc: "query", Name: "zipref", Tag: "str"}, {Loc: "header", Name: "X-Zip", Tag: "int"}}}}
+		g2 := rs.Gen
+		g2.Name = fmt.Sprintf("x%02d_zi", *shard)
+		g2.Spec = inlinedSpec(rs.Gen.Spec, false)
+		pairs = append(pairs, pair{kind: "params", ref: rs.Gen, inl: g2, rs: rs})
+	}
 	if *shard%4 == 1 {
 		// a request body given by reference to components.requestBodies, with several media types in
 		// every order around application/json, vs. the same body written inline
